@@ -162,7 +162,8 @@ class KNNSupervisedOPF(OPF):
                     "Pre-computed distance matrix should have the size of `n_nodes x n_nodes`"
                 )
 
-        max_acc = 0.0
+        # The smallest `k` is kept when no candidate scores above zero
+        max_acc, best_k = 0.0, 1
 
         for k in range(1, self.max_k + 1):
             self.subgraph.best_k = k
